@@ -489,6 +489,39 @@ func c09InjectRefs(r *rand.Rand, d []byte, defs []c09Def) []byte {
 	return out
 }
 
+// c09NearMiss gives D a definition of its own whose label is *not* the moved label but close to it: the interior space
+// written as a character that is no space, tab or line ending for label matching (NBSP, EM SPACE, IDEOGRAPHIC SPACE, VT, FF,
+// NEL, ZERO WIDTH SPACE, LINE SEPARATOR), or a punctuation character written as a backslash escape or a character reference
+// (labels are matched on their raw spelling). D references both labels. The side condition of the relation holds - the moved
+// label is not otherwise defined in D - so the position of the moved block must not matter.
+var c09NearSpaces = []string{"\u00a0", "\u2003", "\u3000", "\v", "\f", "\u0085", "\u200b", "\u2028", "\u1680", "\u00a0 ", " \u3000"}
+
+func c09NearMiss(r *rand.Rand, d []byte, defs []c09Def) []byte {
+	def := defs[r.Intn(len(defs))]
+	near := ""
+	switch {
+	case strings.Contains(def.label, " ") && r.Intn(4) != 0:
+		near = strings.Replace(def.label, " ", c09NearSpaces[r.Intn(len(c09NearSpaces))], 1)
+	case strings.ContainsAny(def.label, "*!-`"):
+		i := strings.IndexAny(def.label, "*!-`")
+		if r.Intn(2) == 0 {
+			near = def.label[:i] + "\\" + def.label[i:]
+		} else {
+			near = def.label[:i] + fmt.Sprintf("&#%d;", def.label[i]) + def.label[i+1:]
+		}
+	default:
+		near = def.label + c09NearSpaces[r.Intn(len(c09NearSpaces))] + "x"
+	}
+	lab := def.label
+	if r.Intn(2) == 0 {
+		lab = strings.ReplaceAll(c09Respell(r, lab), "\n", " ")
+	}
+	var b bytes.Buffer
+	b.Write(d)
+	fmt.Fprintf(&b, "\n[%s]: /defined-in-the-document\n\nnear [%s] and [t][%s], moved [%s] and ![i][%s]\n", near, near, near, lab, lab)
+	return b.Bytes()
+}
+
 func c09EvalMove(md goldmark.Markdown, cs *c09Move) (status, locus, detail string, doc ast.Node, links int) {
 	rd := parseRender(md, cs.d)
 	if !rd.OK() {
@@ -748,6 +781,10 @@ func runC09(c *core.Ctx) {
 		d = bytes.ReplaceAll(d, []byte("]:"), []byte("] "))
 		defs, dsrc := c09GenDefs(r)
 		d = c09InjectRefs(r, d, defs)
+		if r.Intn(4) == 0 {
+			d = c09NearMiss(r, d, defs)
+			c.Count("definition_moves_with_near_miss_labels_defined_in_D", 1)
+		}
 		sp := specs[r.Intn(len(specs))]
 		c09CheckMove(c, pool, sp, &c09Move{d: d, defs: dsrc})
 		if c.WantSample() && i%9000 == 23 {
